@@ -18,6 +18,8 @@ CLAIMS = {
          "Known gaps (not claimed): delAt does not renumber, SetContext on a value receiver, FlattenedKeys, CompareConfigs and Path()/Parent() are not yet under contract; histories by stated induction.", "6/C15"),
  "C12": ("Data structure against abstract view: fields.get/set/del/setAt/delAt with full-view postconditions and frames, address parsing (parsePath/parsePathIdx/parseField: at least one field, one field per segment) and the walkers cfgPath.Has/GetValue, idxField.GetValue, proved for all inputs; induction over operation histories is stated.",
          "strings.Split contract trusted (ghost splitLen/splitAt); cfgPath.SetValue/Remove and typed getters/setters not yet under contract.", "6/C12"),
+ "C16": ("Proof over a trie view of the field-handling tree: fieldHandlingTree.fieldHandling equals the recursive lookup specification of the statement (exact child with a policy wins, otherwise continue below the ** wildcard, otherwise no named policy), and fieldOptsOverride returns options that carry the named policy exactly when the key is on a named path, keep the global policy otherwise, descend into the right sub-tree and leave every other option untouched. One known finding (sub-tree not emptied below an unnamed key) is listed with its failing region; outside that region the clause discharges.",
+         "Trusted: the two accessors child/configHandling implement the trie view (they read a Config through Child/Uint), includeWildcard (summarised by a ghost function), makeFieldOptValueHandling (name -> name.* table) not yet under contract.", "6/C16"),
  "C19": ("Proof of the collector state machine: NewCollector stores config, nil error and the flag's options; Collector.Add keeps the first error (state unchanged afterwards), records a failing argument, otherwise performs exactly one Merge of the argument with the collector's options.",
          "(*Config).Merge is used by its (trusted) contract here and is the subject of C01; the flag loader closures are not yet under contract; the fold over a sequence of Set calls is a stated induction.", "6/C19"),
  "C20": ("Proof for all strings, all MaxIdx and both EnableNumKeys settings that parseField yields an index exactly when numeric keys are not enabled and the segment parses (strconv.ParseInt base 0, trusted) to an integer in [0, MaxIdx], otherwise the unchanged name; parsePath produces one field per segment and disables numeric keys for multi-segment paths.",
